@@ -284,10 +284,15 @@ func (c *vC18Ctx) compareDump(when string, rd *vC18Round, got [][]string, want [
 			c.report("text-log dump row has the wrong number of columns", fmt.Sprintf("%s, round %s: row %q for %s", when, rd, got[i], wantSrc[i]), wantSrc[i])
 			continue
 		}
+		bad := false
 		for k := range want[i] {
 			if got[i][k] != want[i][k] {
+				bad = true
 				c.report("text-log dump shows a different "+names[k], fmt.Sprintf("%s, round %s: entry %s: row %q, want %q", when, rd, wantSrc[i], got[i], want[i]), wantSrc[i])
 			}
+		}
+		if bad {
+			return // the following rows may be shifted
 		}
 	}
 }
